@@ -34,36 +34,42 @@ type Item struct {
 	DeletedAt gorm.DeletedAt
 }
 
+// Owner tracks its times as integer unix seconds (CreatedAt/UpdatedAt by name).
 type Owner struct {
-	ID    uint `gorm:"primarykey"`
-	Title string
-	Age   int64
+	ID        uint `gorm:"primarykey"`
+	Title     string
+	Age       int64
+	CreatedAt int64
+	UpdatedAt int64
 }
 
+// Tag tracks its times in tagged integer fields (milliseconds / nanoseconds).
 type Tag struct {
-	ID     uint `gorm:"primarykey"`
-	Label  string
-	Weight int64
-	ItemID uint
+	ID      uint `gorm:"primarykey"`
+	Label   string
+	Weight  int64
+	ItemID  uint
+	Made    int64 `gorm:"autoCreateTime:milli"`
+	Touched int64 `gorm:"autoUpdateTime:nano"`
 }
 
 // DDL creates the tables exactly as AutoMigrate would name them (three plain
 // statements are much cheaper than AutoMigrate per case).
 var DDL = []string{
 	"CREATE TABLE `items` (`id` integer PRIMARY KEY AUTOINCREMENT,`name` text,`code` integer,`price` real,`active` numeric,`note` text,`nick` text,`data` blob,`owner_id` integer,`created_at` datetime,`updated_at` datetime,`deleted_at` datetime)",
-	"CREATE TABLE `owners` (`id` integer PRIMARY KEY AUTOINCREMENT,`title` text,`age` integer)",
-	"CREATE TABLE `tags` (`id` integer PRIMARY KEY AUTOINCREMENT,`label` text,`weight` integer,`item_id` integer)",
+	"CREATE TABLE `owners` (`id` integer PRIMARY KEY AUTOINCREMENT,`title` text,`age` integer,`created_at` integer,`updated_at` integer)",
+	"CREATE TABLE `tags` (`id` integer PRIMARY KEY AUTOINCREMENT,`label` text,`weight` integer,`item_id` integer,`made` integer,`touched` integer)",
 }
 
 // Seed rows inserted through database/sql (never through gorm: a DryRun handle
 // could not do it) so that reads return something and writes hit something.
 var Seed = []string{
-	"INSERT INTO owners (id,title,age) VALUES (1,'ann',30),(2,'bob',41),(3,'o''hara',52)",
+	"INSERT INTO owners (id,title,age,created_at,updated_at) VALUES (1,'ann',30,1900000000,1900000001),(2,'bob',41,1900000002,1900000003),(3,'o''hara',52,1900000004,1900000005)",
 	"INSERT INTO items (id,name,code,price,active,note,nick,data,owner_id,created_at,updated_at,deleted_at) VALUES " +
 		"(1,'alpha',10,1.5,1,'n1','a',x'01',1,'2030-01-01 00:00:00+00:00','2030-01-01 00:00:00+00:00',NULL)," +
 		"(2,'beta',20,2.5,0,NULL,NULL,NULL,2,'2030-01-02 00:00:00+00:00','2030-01-02 00:00:00+00:00',NULL)," +
 		"(3,'gamma',30,3.5,1,'n3','g',x'0203',1,'2030-01-03 00:00:00+00:00','2030-01-03 00:00:00+00:00','2030-02-01 00:00:00+00:00')",
-	"INSERT INTO tags (id,label,weight,item_id) VALUES (1,'red',5,1),(2,'blue',7,1),(3,'green',9,2)",
+	"INSERT INTO tags (id,label,weight,item_id,made,touched) VALUES (1,'red',5,1,1900000000000,1900000000000000000),(2,'blue',7,1,1900000000001,1900000000000000001),(3,'green',9,2,1900000000002,1900000000000000002)",
 }
 
 // Prepare creates and seeds the schema through the raw pool.
